@@ -392,6 +392,16 @@ pub fn run_universes(run: &mut Run, sel: &Sel, disagree_idx: usize, check: PosCh
         });
     }
     if sel.backrank {
+        run.par_shards("PAWNWALL (all eight pawns and the king at home, two further own men of every kind pair on every pair of squares)", uni::PAWNWALL_SHARDS, |ctx, sh| {
+            uni::pawnwall(sh, &mut |p| visit(ctx, p, disagree_idx, check));
+        });
+    }
+    if sel.castle2 {
+        run.par_shards("CASTLEFILE (king and rooks at home; one of the files c..g filled in every way with own pawns, enemy pawns and enemy rooks)", uni::CASTLEFILE_SHARDS, |ctx, sh| {
+            uni::castlefile(sh, &mut |p| visit(ctx, p, disagree_idx, check));
+        });
+    }
+    if sel.backrank {
         run.par_shards("BACKRANK (king, rooks and queens on the back rank behind a full, nearly full or absent pawn rank, enemy king on the same rank or far; valid ones)", uni::BACKRANK_SHARDS, |ctx, sh| {
             uni::backrank(sh, &mut |r| {
                 if let Ok(p) = r.validate() {
